@@ -18,9 +18,13 @@ func init() {
 	register(&Campaign{ID: "C09", NeedsWorkspace: true, Run: runC09, Replay: replayC09})
 }
 
-var hostileStr = []string{"<\r>", "a\rb", "%", "%s", "%d%v", "$1", "$T0", "*/", "//", "/*", `\`, `\n`, `\\`, `a\"b`, `"`, `'`, "`", "a b", " ", "é", "中文", "😀", "<", ">", "{{.}}", "{{", "}}", "a\nb", "\t", "x\x01y", "->", "&&", "%!s(", "\\u0041", "''", "?"}
+var hostileStr = []string{"<\r>", "a\rb", "n\x00l", "b\ufeffm", "%", "%s", "%d%v", "$1", "$T0", "*/", "//", "/*", `\`, `\n`, `\\`, `a\"b`, `"`, `'`, "`", "a b", " ", "é", "中文", "😀", "<", ">", "{{.}}", "{{", "}}", "a\nb", "\t", "x\x01y", "->", "&&", "%!s(", "\\u0041", "''", "?"}
 var hostileTok = []string{"tök", "名前", "t_1", "x9", "ident", "λ", "a1_b2", "ñ"}
 var hostileProd = []string{"Ünit", "Σ", "Prod_1", "X9", "Élément", "Z"}
+
+// hostileInvalidBytes adds terminal spellings that are not valid UTF-8. Only C09 turns it on: the
+// campaigns that feed tokens by name carry names through JSON, which cannot hold such bytes.
+var hostileInvalidBytes = false
 
 // hostileGrammar: a small well-formed grammar whose terminals, names and action text are
 // spelled with characters that are dangerous when spliced into Go source.
@@ -37,6 +41,9 @@ func hostileGrammar(r *rand.Rand, withActions bool) *gram.Grammar {
 	r.Shuffle(len(prods), func(i, j int) { prods[i], prods[j] = prods[j], prods[i] })
 	start, item := prods[0], prods[1]
 	strs := append([]string(nil), hostileStr...)
+	if hostileInvalidBytes {
+		strs = append(strs, "\xff\xfe", "a\x80")
+	}
 	r.Shuffle(len(strs), func(i, j int) { strs[i], strs[j] = strs[j], strs[i] })
 	strs = strs[:1+r.Intn(4)]
 	x := &gram.NTDef{Head: item}
@@ -131,6 +138,8 @@ func runC09(c *Ctx) error {
 	if err := c.W.WriteSupport(); err != nil {
 		return err
 	}
+	hostileInvalidBytes = true
+	defer func() { hostileInvalidBytes = false }()
 	r := c.Rng
 	var units []*c09Unit
 	add := func(kind string, g *gram.Grammar, text string, flags []string) *c09Unit {
